@@ -31,6 +31,7 @@ class Func:
         self.body = _strip(node.body)
         self.params = [a.arg for a in node.args.args]
         self.vararg = node.args.vararg.arg if node.args.vararg else None
+        self.kwarg = node.args.kwarg.arg if node.args.kwarg else None
         self.defaults = node.args.defaults
         self.sha = hashlib.sha256(ast.dump(ast.Module(body=self.body, type_ignores=[])).encode()).hexdigest()[:16]
         self.lines = (node.lineno, node.end_lineno)
